@@ -258,6 +258,10 @@ where
                 let incarnation = tx_state.incarnation;
                 let dependency = tx_state.dependency;
                 tx_state.status = TransactionStatus::Finality;
+                #[cfg(grevm_verif)]
+                crate::verif::events::finality_event(finality_idx, effective_lower_ts, |i| {
+                    self.scheduler_ctx.unconfirmed_timestamp(i)
+                });
                 drop(tx_state);
 
                 let next_finality_idx = finality_idx + 1;
@@ -559,6 +563,8 @@ where
             return None;
         }
         self.metrics.record_execution_attempt();
+        #[cfg(grevm_verif)]
+        crate::verif::event(crate::verif::Event::ExecStart { txid, incarnation });
 
         let tx_env = self.txs[txid].clone();
         let IncarnationExecution { result, accesses } =
@@ -573,6 +579,13 @@ where
         match result {
             Ok(speculative_result) => {
                 conflict = accesses.is_blocked();
+                #[cfg(grevm_verif)]
+                crate::verif::event(crate::verif::Event::ExecEnd {
+                    txid,
+                    incarnation,
+                    ok: true,
+                    blocked: conflict,
+                });
                 let IncarnationAccesses {
                     read_set,
                     write_set,
@@ -589,6 +602,8 @@ where
                         }
                     }
                     for location in &last_result.write_set {
+                        #[cfg(grevm_verif)]
+                        crate::verif::sched_point("mv.remove_stale");
                         if !write_set.contains(location) &&
                             let Some(mut written_transactions) = self.mv_memory.get_mut(location)
                         {
@@ -633,6 +648,13 @@ where
             Err(e) => {
                 debug_assert!(accesses.write_set.is_empty());
                 let blocked_on_estimate = accesses.is_blocked();
+                #[cfg(grevm_verif)]
+                crate::verif::event(crate::verif::Event::ExecEnd {
+                    txid,
+                    incarnation,
+                    ok: false,
+                    blocked: blocked_on_estimate,
+                });
                 let IncarnationAccesses { blocking_txs, blocked_by_beneficiary, .. } = accesses;
                 let invalid_transaction = matches!(e, EVMError::Transaction(_));
                 conflict = true;
@@ -666,6 +688,11 @@ where
                 } else {
                     self.metrics.record_evm_error_conflict();
                     if self.scheduler_ctx.committed_idx() == txid {
+                        #[cfg(grevm_verif)]
+                        crate::verif::event(crate::verif::Event::ErrorAtHead {
+                            txid,
+                            invalid_tx: invalid_transaction,
+                        });
                         if invalid_transaction {
                             self.abort(AbortReason::FallbackSequential);
                         } else {
@@ -750,6 +777,8 @@ where
                 continue;
             }
 
+            #[cfg(grevm_verif)]
+            crate::verif::sched_point("mv.validate");
             if let Some(written_transactions) = self.mv_memory.get(location) {
                 if let Some((&previous_id, latest_version)) =
                     written_transactions.range(..txid).next_back()
@@ -786,6 +815,8 @@ where
             }
         }
 
+        #[cfg(grevm_verif)]
+        crate::verif::event(crate::verif::Event::Validate { txid, incarnation, ts, ok: !conflict });
         // update transaction status
         tx_state.status = if conflict {
             self.scheduler_ctx.rewind_validation_to(txid + 1);
@@ -816,6 +847,8 @@ where
 
     fn mark_mv_estimate(&self, txid: TxId, write_set: &HashSet<LocationAndType>) {
         for location in write_set {
+            #[cfg(grevm_verif)]
+            crate::verif::sched_point("mv.mark_estimate");
             if let Some(mut written_transactions) = self.mv_memory.get_mut(location) &&
                 let Some(entry) = written_transactions.get_mut(&txid)
             {
